@@ -302,3 +302,21 @@ async def started_phases_are_always_finished(fail: bool, ready: bool, connect_ph
 from contracts import c10_leaks
 harness(prop="C08", target="geckolib.async_spa_manager:GeckoAsyncSpaMan.async_reset",
         name="recovery_reset_lands_in_idle_despite_self_cancellation")(c10_leaks.recovery_reset_survives_its_own_cancellation)
+
+
+# ------------------------------------------------------------ the event / state vocabularies the table is written in
+@harness(prop="C08", target="geckolib.spa_events:GeckoSpaEvent", name="every_event_and_state_name_is_its_own_member")
+def every_event_and_state_name_is_its_own_member():
+    """two names with the same value would silently be ONE event for the pre-processing switch (and for this table): every name
+    the statement's table uses denotes a member of its own"""
+    names = [n for n in dir(E) if n.isupper()]
+    ensures("no-two-event-names-share-a-member", len(names) == len(list(E)))
+    for i in range(len(names)):
+        for j in range(i + 1, len(names)):
+            ensures("event-names-are-distinct-members:" + names[i], getattr(E, names[i]) is not getattr(E, names[j]))
+    snames = ["IDLE", "LOCATING_SPAS", "LOCATED_SPAS", "CONNECTING", "SPA_READY", "CONNECTED", "ERROR_SPA_NOT_FOUND", "ERROR_NEEDS_ATTENTION",
+              "ERROR_PING_MISSED", "ERROR_RF_FAULT"]
+    for i in range(len(snames)):
+        for j in range(i + 1, len(snames)):
+            ensures("state-names-are-distinct-members:" + snames[i], getattr(S, snames[i]) is not getattr(S, snames[j]))
+    ensures("the-ten-states-of-the-table-are-all-there-are", len(list(S)) == len(snames))
